@@ -30,6 +30,9 @@ CHECKS = {
  "C03": dict(technique="bounded exhaustive enumeration of <valid program><separator><broken tail> inputs and token strings with a differential re-execution oracle (Matched alone, same prior state, same die answers)",
              text="Every combination of 100 construct-covering programs x 5 separators x 78 tails that begin like a literal/call/index/block/operator and break off, plus every token string of <=3 tokens, under family-on and family-off configurations: Matched+RestInput must be the input and re-evaluating Matched alone (dice answered identically through VerifRoll) must reproduce value, variables, st callbacks, dice count, detail text and the executed instruction sequence with empty rest.",
              note="Detail texts containing a dict rendering are compared modulo permutation (Go map order); neutralised 'nop' instructions are ignored in the instruction comparison; pools and tails are finite lists in c03.go.", ref="DESIGN.md §4 C03"),
+ "C08": dict(technique="explicit-state exploration of an abstract stack machine over every compiled code array (both outcomes of every conditional jump), bound to the implementation by concrete-trace containment (VerifStep)",
+             text="For every accepted input of the enumerated families the main code and all nested bodies are explored exhaustively in an abstract domain (pc, stack height, saved block/template heights, dice/annotation/wod/dc state) and the well-formedness invariants are checked in every reachable abstract state, i.e. on every path rather than the path taken. Every program is then executed and each concrete VM state at every instruction boundary and sub-VM depth must lie inside the abstract reachable set, which validates the model's transfer table against rollvm.go on ~90k traces per quick run.",
+             note="Heights >= 96 / detail counts >= 3 merged; transfer table restated from rollvm.go (mismatch = machinery error); zero-offset unpatched jumps are indistinguishable from legitimate zero offsets. Known finding: index/attribute/slice assignment accepted as a value.", ref="DESIGN.md §4 C08"),
 }
 PENDING = {}
 def main():
